@@ -39,7 +39,9 @@ ANCHORS = ["openfisca_core/taxbenefitsystems/tax_benefit_system.py", "openfisca_
 RULE = ("random ranked base rule systems (3-6 variables, mostly month/year, dated formulas, parameters with histories) "
         "compiled to real Variable subclasses; a script of 2-5 derivations (clone, Reform subclasses built on the fly whose "
         "apply() adds / updates / replaces / neutralises / annualises variables and calls modify_parameters, chained reforms, "
-        "clones of reforms, modifications of a derived system in place, parameter edits on a clone), a look at every system "
+        "clones of reforms, modifications of a derived system in place, parameter edits on a clone; parameter updates go "
+        "through param.update or the param.values_history alias, on root leaves, a leaf two nodes deep and a scale-bracket "
+        "rate), a look at every system "
         "(variable table through the system and through both entities, parameters at boundary dates) after every derivation, "
         "and evaluations (fresh and long-lived simulations) on base and derived systems in both orders; non-trivial when at "
         "least one derivation succeeded and one formula ran on a derived system; distinct by JSON text")
@@ -114,6 +116,11 @@ def _gen_vdef(rng, table, name, full):
         d["ent"] = cur["ent"] if cur else rng.choice(["person", "person", "group"])
         d["type"] = rng.choice(["int", "int", "float", "bool"])
         d["unit"] = cur["unit"] if cur and rng.random() < 0.7 else rng.choice(["month", "month", "year"])
+        if cur and cur["unit"] == "eternity":
+            # an eternal variable stays eternal: its inputs are given for the eternity period, which
+            # set_input cannot compare with an end date (ValueError in the code; Engine.v's set_input
+            # answers the period mismatch instead - outside what C14 generates)
+            d["unit"] = "eternity"
         if rng.random() < 0.7:
             d["default"] = rng.choice([0, 1]) if d["type"] == "bool" else rng.choice([0, 2, 7, -1])
     else:
@@ -181,7 +188,8 @@ def _gen_ups(rng, nparams):
         if rng.random() < 0.4:
             stop = [start[0] + rng.choice([0, 1]), 12, 31]
         ups.append([k, start, stop, rng.choice([rng.randint(-4, 30), rng.randint(10, 20), None])
-                    if rng.random() < 0.15 else rng.randint(-4, 30)])
+                    if rng.random() < 0.15 else rng.randint(-4, 30),
+                    rng.choice([0, 1])])           # the handle: param.update / param.values_history.update
     return ups
 
 
@@ -249,6 +257,13 @@ def gen_case(rng):
     pop = rules.gen_pop(rng, 4)
     year = rng.choice([2018, 2019])
     nbase = len(sys["vars"])
+    nflat = len(sys["params"])
+    # two more parameters that no formula reads: a leaf two nodes deep and the rate of a scale bracket
+    for _ in range(2):
+        h = [[[2000, 1, 1], rng.randint(0, 9)]]
+        for y in sorted(rng.sample([2015, 2017, 2018, 2019], rng.randint(0, 2))):
+            h.append([[y, rng.choice([1, 7]), 1], rng.choice([rng.randint(-5, 40), rng.randint(0, 9), None])])
+        sys["params"].append(h)
     nparams = len(sys["params"])
     for v in sys["vars"]:
         if v["unit"] == "eternity":
@@ -289,6 +304,10 @@ def gen_case(rng):
             meta.append({"table": copy.deepcopy(meta[i]["table"]), "base": meta[i]["base"], "own_tree": True, "children": 0})
             meta[i]["children"] += 1
             touched = len(meta) - 1
+            if rng.random() < 0.4:
+                # the usual route: copy the system, then change parameters of the copy
+                steps += looks()
+                steps.append(["mod", touched, ["edit_params", _gen_ups(rng, nparams)], "ok"])
         elif r < 0.70 or len(meta) == 1:
             i = rng.randrange(len(meta))
             tmp = [{"table": copy.deepcopy(meta[i]["table"]), "base": i, "own_tree": False, "children": 0}]
@@ -334,11 +353,11 @@ def gen_case(rng):
                       for m in (s[2] if s[0] == "reform" else [s[2]]) if m[0] in ("modify_params", "edit_params")
                       for u in m[1] for x in _boundaries(u)})
     return {"sys": sys, "pop": pop, "inputs": inputs, "steps": steps, "window": list(WINDOW),
-            "nnames": nbase + 3, "dates": [list(d) for d in dates], "year": year}
+            "nnames": nbase + 3, "dates": [list(d) for d in dates], "year": year, "nflat": nflat}
 
 
 def _boundaries(u):
-    _k, start, stop, _v = u
+    _k, start, stop, _v = u[:4]
     out = [start, _shift(start, -1)]
     if stop is not None:
         out += [stop, _shift(stop, 1)]
@@ -385,11 +404,47 @@ def make_class(tbs, name, d, nref, switches):
     return type(f"v{name}", (rules.Variable,), attrs)
 
 
-def make_modifier(ups):
+def _hist_data(h):
+    return {"values": {_iso(d): {"value": z} for d, z in h}}
+
+
+def add_extra_parameters(tbs, extras):
+    """parameter number nflat: the leaf deep.inner.q; number nflat + 1: the rate of the second
+    bracket of the scale sc (harness-side parameters, read by no formula)"""
+    from openfisca_core.parameters import ParameterNode
+    data = {}
+    if len(extras) > 0:
+        data["deep"] = {"inner": {"q": _hist_data(extras[0])}}
+    if len(extras) > 1:
+        data["sc"] = {"brackets": [
+            {"threshold": {"values": {"2000-01-01": {"value": 0}}}, "rate": {"values": {"2000-01-01": {"value": 1}}}},
+            {"threshold": {"values": {"2000-01-01": {"value": 100}}}, "rate": _hist_data(extras[1])}]}
+    node = ParameterNode("", data=data)
+    for name, child in node.children.items():
+        tbs.parameters.add_child(name, child)
+    tbs._parameters_at_instant_cache = {}
+
+
+def param_object(tree, k, nflat):
+    if k < nflat:
+        return getattr(tree, f"p{k}")
+    if k == nflat:
+        return tree.deep.inner.q
+    if k == nflat + 1:
+        return tree.sc.brackets[1].rate
+    raise AttributeError(f"p{k}")
+
+
+def make_modifier(ups, nflat):
     def modifier(parameters):
-        for k, start, stop, value in ups:
-            getattr(parameters, f"p{k}").update(start=rules.periods.instant(_iso(start)),
-                                                stop=None if stop is None else rules.periods.instant(_iso(stop)), value=value)
+        for u in ups:
+            k, start, stop, value = u[:4]
+            handle = u[4] if len(u) > 4 else 0
+            param = param_object(parameters, k, nflat)
+            if handle == 1:
+                param = param.values_history          # the backward-compatibility alias of the parameter
+            param.update(start=rules.periods.instant(_iso(start)),
+                         stop=None if stop is None else rules.periods.instant(_iso(stop)), value=value)
         return parameters
     return modifier
 
@@ -407,13 +462,13 @@ def perform(tbs, mod, nref, switches):
     elif kind == "annualize":
         tbs.annualize_variable(f"v{mod[1]}")
     elif kind == "modify_params":
-        out = tbs.modify_parameters(make_modifier(mod[1]))
+        out = tbs.modify_parameters(make_modifier(mod[1], nref["nflat"]))
         if isinstance(out, Exception):
             raise out
     elif kind == "edit_params":
         # the tree of a copy edited in place; the views already computed from it are dropped, as
         # one does after editing a live tree (C07: in-place edits after a read are no claimed route)
-        make_modifier(mod[1])(tbs.parameters)
+        make_modifier(mod[1], nref["nflat"])(tbs.parameters)
         tbs._parameters_at_instant_cache = {}
     else:
         raise AssertionError(kind)
@@ -441,7 +496,7 @@ def look_variable(v):
     return [dates, unit, bool(v.is_neutralized), int(dv), ty, end, 0 if v.entity.key == "person" else 1]
 
 
-def look_system(tbs, sim, nnames, nparams, dates):
+def look_system(tbs, sim, nnames, nparams, dates, nflat):
     via_sys = [look_variable(tbs.get_variable(f"v{n}")) for n in range(nnames)]
     if sim is not None:
         ents = [sim.populations["person"].entity, sim.populations["household"].entity]
@@ -452,10 +507,16 @@ def look_system(tbs, sim, nnames, nparams, dates):
     for k in range(nparams):
         row = []
         for d in dates:
-            try:
-                x = getattr(tbs.get_parameters_at_instant(_iso(d)), f"p{k}")
-            except Exception:  # noqa: BLE001 - no value at that date: the child is absent
-                x = None
+            # the value in the tree itself, and (for leaves) the system's view at that instant
+            x = param_object(tbs.parameters, k, nflat).get_at_instant(_iso(d))
+            if k <= nflat:
+                try:
+                    view = param_object(tbs.get_parameters_at_instant(_iso(d)), k, nflat)
+                except Exception:  # noqa: BLE001 - no value at that date: the child is absent
+                    view = None
+                if view != x:
+                    row.append(f"view {view} differs from tree {x}")
+                    continue
             if x is not None and x != int(x):
                 raise rules.Inexact(repr(x))
             row.append(None if x is None else int(x))
@@ -468,10 +529,13 @@ def run_impl(case):
     nref = {"vars": [None] * case["nnames"], "max_loops": sysj.get("max_loops", 1)}
     switches = set()
     nparams = len(sysj["params"])
+    nflat = case.get("nflat", nparams)
+    nref["nflat"] = nflat
     out = []
     with warnings.catch_warnings():
         warnings.simplefilter("ignore")
-        world = [rules.build_system(sysj, switches)]
+        world = [rules.build_system(dict(sysj, params=sysj["params"][:nflat]), switches)]
+        add_extra_parameters(world[0], sysj["params"][nflat:])
         sims = {}
 
         def simulate(tbs, sim, reqs):
@@ -523,7 +587,7 @@ def run_impl(case):
                     if i >= len(world):
                         out.append(Err("ENotFound", "no such system"))
                         continue
-                    out.append(look_system(world[i], sims.get(i), case["nnames"], nparams, case["dates"]))
+                    out.append(look_system(world[i], sims.get(i), case["nnames"], nparams, case["dates"], nflat))
                 else:
                     raise AssertionError(kind)
         except rules.Inexact:
@@ -548,7 +612,7 @@ def cvdef(d):
 
 def cups(ups):
     return clist([f"({rules.cnat(k)}, ({cz(rules.date_ord(start))}, {copt(stop, lambda x: cz(rules.date_ord(x)))}, "
-                  f"{copt(value, cz)}))" for k, start, stop, value in ups])
+                  f"{copt(value, cz)}))" for k, start, stop, value in (u[:4] for u in ups)])
 
 
 def cmod(m):
@@ -679,7 +743,7 @@ def _walk(case, obs):
                 for k in range(nparams):
                     for di, d in enumerate(case["dates"]):
                         want = ref_look[2][k][di]
-                        for kk, start, stop, value in ups:
+                        for kk, start, stop, value in (u[:4] for u in ups):
                             if kk == k and _span(d, start, stop):
                                 want = value
                         if look[2][k][di] != want:
